@@ -177,7 +177,7 @@ def check(ctx):
     rl = assigns('rate_limit')
     ctx.inst('R2', pu, 'rate-limit', len(rl) == 2 and norm(rl[0].ast.value) == 'None' and norm(rl[1].ast.value) == "int(parsed_query['rate_limit'][0])" and
              fact_key("'rate_limit' in parsed_query", True) in g.fact_keys_at(rl[1]), 'rate limit from the query string, default None')
-    dv = assigns('devid')
+    dv = sorted(assigns('devid'), key=lambda n: norm(n.ast.value) != 'int(parsed_uri.netloc)')       # the index branch first, whatever the source order
     ok = len(dv) == 2 and norm(dv[0].ast.value) == 'int(parsed_uri.netloc)' and norm(dv[1].ast.value) == 'crazyradio.get_serials().index(parsed_uri.netloc.upper())'
     ctx.inst('R2', pu, 'dongle-id', ok and fact_key('parsed_uri.netloc.isdigit()', True) in g.fact_keys_at(dv[0]), 'numeric dongle ids are used directly, serial numbers are looked up')
     ks = g.fact_keys_at(dv[0]) if dv else set()
@@ -236,9 +236,18 @@ def check(ctx):
         ctx.inst('R4', si, 'label=last-set-rate:%s@%d' % (lab, line), RATES.get(lab) == rate, 'URIs labelled %s are produced while the radio is set to %s' % (lab, rate), line=line)
     gsi = cfg_of(si)
     prog = gsi.find(lambda q: method_call(q, 'set_address'))
-    plain = [n for n in gsi.nodes if n.kind == 'if' and 'DEFAULT_ADDR' in norm(n.ast.test)]
-    okb = len(prog) == 1 and fact_key('address is not None', True) in gsi.fact_keys_at(prog[0][0]) and len(plain) == 1 and \
-        canon_test(plain[0].ast.test) == canon_test(ast.parse('address is None or address == DEFAULT_ADDR', mode='eval').body)
+    # every statement that produces address-less URIs runs under `address is None or address == DEFAULT_ADDR`, every one that prints the
+    # address under its negation (whichever branch is written first)
+    kt = {fact_key('address is None or address == DEFAULT_ADDR', True)}
+    kf = {fact_key('address is None', False), fact_key('address == DEFAULT_ADDR', False)}
+    prods = []
+    for n in gsi.nodes:
+        if n.kind == 'stmt' and n.ast is not None:
+            for c in ast.walk(n.ast):
+                if isinstance(c, ast.Constant) and isinstance(c.value, str) and c.value.startswith('radio://0/{}/'):
+                    prods.append((n, c.value.count('/') == 5))
+    okb = len(prog) == 1 and fact_key('address is not None', True) in gsi.fact_keys_at(prog[0][0]) and len(prods) == 6 and \
+        all((kf if with_addr else kt) <= set(gsi.fact_keys_at(n)) for n, with_addr in prods)
     ctx.inst('R4', si, 'addressless-uris-iff-default-address', okb,
              'URIs without an address field are reported exactly when no address or the default address was scanned (`address is None or address == DEFAULT_ADDR`), matching '
              'the `address is not None` test that programs the radio; a truthiness test mis-files address 0')
